@@ -544,6 +544,32 @@ def local_helpers(syn, fn, depth=2):
     return out
 
 
+
+def is_node_scrutinee(e, fn=None):
+    """`match &<x>.node` / `match <x>.node` where <x> is a plain name - the dispatch on the kind of a syntax node; when `fn` is given,
+    <x> has to be one of its parameters (whatever it is called)"""
+    e = strip(e)
+    while isinstance(e, dict) and e.get("k") in ("ref", "paren"):
+        e = strip(e["e"])
+    if not (isinstance(e, dict) and e.get("k") == "field" and e.get("name") == "node"):
+        return False
+    b = strip(e["base"])
+    if not (isinstance(b, dict) and b.get("k") == "path" and "::" not in b["p"]):
+        return False
+    if fn is not None:
+        params = {i_["pat"]["name"] for i_ in fn["sig"]["inputs"] if i_.get("pat", {}).get("k") == "pident"}
+        return b["p"] in params
+    return True
+
+
+def ast_params(fn):
+    """names of the parameters of `fn` that are syntax nodes (`&AST`, `&ASTTy`, `&Box<AST>`) - whatever they are called"""
+    out = set()
+    for i_ in fn["sig"]["inputs"]:
+        if i_.get("pat", {}).get("k") == "pident" and re.search(r"\bAST(Ty)?\b", str(i_.get("ty", ""))) and "[" not in str(i_.get("ty", "")) and "Vec" not in str(i_.get("ty", "")):
+            out.add(i_["pat"]["name"])
+    return out
+
 def syn_owner(syn, f, depth=3):
     """syntactic counterpart of owner_root: the qualified name of the function a site in `f` is attributed to - a private free
     function that exactly one other function of its module calls (by bare name) belongs to that caller"""
@@ -792,6 +818,67 @@ def enum_switch_targets(body, enum_path, variant):
 # Syntax model
 # --------------------------------------------------------------------------------------------
 
+
+# Parameters that carry one of the pipeline's context objects have conventional names throughout the code base (63 of 63 `&mut LexIterator`
+# are `it`, 59 of 59 `&Context` are `ctx`, ..).  Rules name these parameters in conditions and messages; so that renaming one (which cannot
+# change behaviour) does not change what a rule sees, every function is alpha-renamed on loading: a parameter of such a type that is the
+# only one of its type in the function gets the conventional name back - unless that name is already used in the function.
+# ORIGINAL_PARAM_NAMES lists the functions of today's tree whose parameter is *not* called by the convention (they keep their name).
+CANONICAL_PARAMS = [(r"^&Environment$", "env"), (r"^&Context$", "ctx"), (r"^&mut ConstrBuilder$", "constr"), (r"^&mut LexIterator$", "it"),
+                    (r"^&State$", "state"), (r"^&mut State$", "state"), (r"^&mut Imports$", "imp"), (r"^&(AST|ASTTy)$", "ast"),
+                    (r"^&mut Constraints$", "constraints"), (r"^&mut Finished$", "finished")]
+ORIGINAL_PARAM_NAMES = None      # tables/param_names.json: {"fn qual|class": name} for the parameters of today's tree that do not follow the convention
+
+
+def canonicalise_params(syn):
+    """-> {fn qual: {current name: conventional name}} for the parameters that were renamed in the facts (see above)"""
+    global ORIGINAL_PARAM_NAMES
+    if ORIGINAL_PARAM_NAMES is None:
+        ORIGINAL_PARAM_NAMES = {tuple(k_.split("|")): v_ for k_, v_ in load_table("param_names.json")["names"].items()}
+    done = {}
+    for f in syn.fns:
+        if not f.get("body") or not f.get("qual"):
+            continue
+        by_class = defaultdict(list)
+        for i_ in f["sig"]["inputs"]:
+            if i_.get("pat", {}).get("k") != "pident":
+                continue
+            ty = re.sub(r"\s+", " ", str(i_.get("ty", "")).strip()).replace("& ", "&")
+            for rx, c in CANONICAL_PARAMS:
+                if re.match(rx, ty):
+                    by_class[c].append(i_["pat"]["name"])
+        ren = {}
+        for c, names in by_class.items():
+            if len(names) != 1:
+                continue
+            want = ORIGINAL_PARAM_NAMES.get((f["qual"], c)) or c
+            if names[0] != want:
+                ren[names[0]] = want
+        if not ren:
+            continue
+        used = set()
+        for n in walk(f["body"]):
+            if n.get("k") == "pident":
+                used.add(n["name"])
+            elif n.get("k") == "path" and "::" not in n["p"]:
+                used.add(n["p"])
+        for i_ in f["sig"]["inputs"]:
+            if i_.get("pat", {}).get("k") == "pident":
+                used.add(i_["pat"]["name"])
+        ren = {a: b for a, b in ren.items() if b not in used}
+        if not ren:
+            continue
+        for root in (f["body"], [i_.get("pat") for i_ in f["sig"]["inputs"]]):
+            for n in walk(root):
+                if n.get("k") == "pident" and n["name"] in ren:
+                    n["name"] = ren[n["name"]]
+                elif n.get("k") == "path" and n["p"] in ren:
+                    n["p"] = ren[n["p"]]
+        done[f["qual"]] = ren
+    return done
+
+
+
 class Syn:
     def __init__(self, path):
         with open(path) as fh:
@@ -802,6 +889,7 @@ class Syn:
         self.consts = {}
         self.impls = []
         self._index(self.root["items"], None)
+        self.renamed_params = canonicalise_params(self)
 
     def _index(self, items, impl):
         for it in items:
